@@ -78,6 +78,8 @@ func typed(typ string, names ...string) []ColDef {
 var findingWitnesses = []witness{
 	{"w-KF-pk-changed", my, []Stmt{tbl("t", col("id", "int(11)"))}, []Stmt{tbl("t", col("id", "int(11)", oNotNull, oPk))}},
 	{"w-KF-index-redefined-old-columns-dropped", my, []Stmt{tbl("t", ints("a", "b")...), idx("t", "i", false, "a")}, []Stmt{tbl("t", ints("b")...), idx("t", "i", false, "b")}},
+	{"w-KF-foreign-key-redefined", my, []Stmt{tbl("s", ints("id", "idx")...), tbl("t", ints("id", "sid")...), fk("t", "fk_s_t", "sid", "s", "id")},
+		[]Stmt{tbl("s", ints("id", "idx")...), tbl("t", ints("id", "sid")...), fk("t", "fk_s_t", "sid", "s", "idx")}},
 	{"w-KF-postgres-column-options", pg, nil, []Stmt{tbl("t", col("a", "INT8", oNotNull), col("b", "INT8", oDef("7")))}},
 	{"w-KF-postgres-foreign-keys", pg, []Stmt{tbl("group", typed("INT8", "id")...), tbl("orders", typed("INT8", "id")...)},
 		[]Stmt{tbl("group", typed("INT8", "id")...), tbl("orders", typed("INT8", "id")...), fk("group", "fk_orders_group", "id", "orders", "id")}},
